@@ -305,12 +305,12 @@ func (l *linkedBuffer) ReadByte() (byte, error) {
 		}
 	}
 	r, err := l.sliceList.front().read(1)
-	if err == nil {
-		l.len--
-		return r[0], nil
+	// the front slice is used up, and so may be slices behind it (a fallback event can carry an empty
+	// payload): l.len >= 1 says that a later slice holds the byte.
+	for err != nil {
+		l.readNextSlice()
+		r, err = l.sliceList.front().read(1)
 	}
-	l.readNextSlice()
-	r, _ = l.sliceList.front().read(1)
 	l.len--
 	return r[0], nil
 }
